@@ -186,7 +186,15 @@ func c02Func(i int, s fnSpec, specs []fnSpec) Stmt {
 			}
 			body = append(body, Define{Names: names, Form: DefShort, Vals: []Expr{call}}, Print{Args: append([]Expr{StrLit{V: name + ":multi"}}, vars...)})
 		case "multi-assign":
-			body = append(body, Assign{Names: all[:cs.nret], Vals: []Expr{call}})
+			if cs.nret <= len(all) {
+				body = append(body, Assign{Names: all[:cs.nret], Vals: []Expr{call}})
+			} else { // fewer assignable variables than results: define fresh ones instead
+				var names []string
+				for k := 0; k < cs.nret; k++ {
+					names = append(names, fmt.Sprintf("ma%d_%d", i+1, k))
+				}
+				body = append(body, Define{Names: names, Form: DefShort, Vals: []Expr{call}})
+			}
 		case "nested":
 			inner := make([]Expr, np)
 			for k := range inner {
